@@ -101,6 +101,8 @@ def drv (args : List String) : String :=
       | .ok req =>
         if req.state != .complete then "incomplete"
         else if !isWebRequest req then "notweb"
+        -- bytes after the first complete request are handed to the follow-up handling (C04), not C12's subject
+        else if (match req.buffer with | some bf => !bf.isEmpty | none => false) then "leftover"
         else
           let cfg : Cfg := { rewriteHost := rw == "1" }
           let r := onRequestComplete cfg (parseBits bits) pick (conn == "ok") t req {}
